@@ -4,7 +4,7 @@
    every interleaving of deliveries and calls.  The invariants are the design-level content of C06's ECDH clause; each
    finished configuration is printed (HIST) and replayed on the real library by drivers/c06_ec.py. *)
 EXTENDS KeyAgreement, Json
-CONSTANTS EmitHist
+CONSTANTS EmitHist, Mutant
 VARIABLES keys, got, mis, res
 vars == <<keys, got, mis, res>>
 Pending == [done |-> FALSE, cls |-> {}, z |-> <<{}, {}>>]
@@ -19,8 +19,11 @@ Init == /\ keys \in {k \in [KeyIds -> 0..2] : Canonical(k)}
 \* the channel hands the public half of key pair k to the owner's peer (before the peer's call), genuine or replaced
 Deliver(k, how) == /\ keys[k] # 0 /\ got[k] = "none" /\ ~res[Peer(Owner(k))].done
                    /\ got' = [got EXCEPT ![k] = how] /\ UNCHANGED <<keys, mis, res>>
+\* Mutant = TRUE: the responder of C(1e,2s) mixes up its primitives (Ze from its static key and the peer's STATIC key); used only to
+\* show that the invariant Agreement separates a wrong table from the right one
+MOutcome(v) == LET o == Outcome(v) IN IF Mutant /\ Scheme(v) = "C(1e,2s)V" THEN [o EXCEPT !.ze = <<"sp", "sP">>] ELSE o
 Call(x) == /\ ~res[x].done
-           /\ res' = [res EXCEPT ![x] = LET o == Outcome(View(keys, got, mis, x))
+           /\ res' = [res EXCEPT ![x] = LET o == MOutcome(View(keys, got, mis, x))
                                         IN [done |-> TRUE, cls |-> o.cls, z |-> IF o.cls = {"Z"} THEN SecretTerm(x, o) ELSE <<{}, {}>>]]
            /\ UNCHANGED <<keys, got, mis>>
 Next == \/ \E k \in KeyIds, how \in {"genuine", "low"} : Deliver(k, how)
